@@ -240,7 +240,7 @@ NOT_APPLICABLE = {}
 
 PROPS = {
     "C01": {
-        "modules": ["RsddModel.Props.C01", "RsddModel.Props.C01Total", "RsddModel.Props.TieIte", "RsddModel.Props.TieOrders", "RsddModel.Props.TieBddCore"],
+        "modules": ["RsddModel.Props.C01", "RsddModel.Props.C01Total", "RsddModel.Props.TieIte", "RsddModel.Props.TieOrders", "RsddModel.Props.TieBddCore", "RsddModel.Props.TieBddCoreSource"],
         "streams": [BDD_STREAM],
         "rule": BDD_RULE,
         "trusted": ["modelled not verified: unique table (C02), FxHasher (arbitrary function), unsafe aliasing of compute_table, std HashMap memo of cond_with_alloc (association list)"],
@@ -259,7 +259,7 @@ PROPS = {
                        "structurally, implementation = spec truth tables).",
     },
     "C02": {
-        "modules": ["RsddModel.Props.C02", "RsddModel.Props.C02Table", "RsddModel.Props.C02Store", "RsddModel.Props.Tie", "RsddModel.Props.TieIte", "RsddModel.Props.TieBddCore", "RsddModel.Props.TieTables"],
+        "modules": ["RsddModel.Props.C02", "RsddModel.Props.C02Table", "RsddModel.Props.C02Store", "RsddModel.Props.Tie", "RsddModel.Props.TieIte", "RsddModel.Props.TieBddCore", "RsddModel.Props.TieBddCoreSource", "RsddModel.Props.TieTables", "RsddModel.Props.TieTablesSource"],
         "streams": [BDD_STREAM, TBL_STREAM],
         "rule": BDD_RULE,
         "trusted": ["modelled not verified: bump allocator, FxHasher, psl as u8 (PslBound hypothesis: no probe sequence reaches 256)"],
@@ -278,7 +278,7 @@ PROPS = {
                        "robin-hood table across any number of growths; growOrig_orphans is the negative theorem for the pinned grow.",
     },
     "C16": {
-        "modules": ["RsddModel.Props.C16", "RsddModel.Props.Tie", "RsddModel.Props.TieIte", "RsddModel.Props.TieBddCore", "RsddModel.Props.TieTables"],
+        "modules": ["RsddModel.Props.C16", "RsddModel.Props.Tie", "RsddModel.Props.TieIte", "RsddModel.Props.TieBddCore", "RsddModel.Props.TieBddCoreSource", "RsddModel.Props.TieTables", "RsddModel.Props.TieTablesSource"],
         "streams": [BDD_STREAM, LRU_STREAM, SDD_STREAM],
         "rule": BDD_RULE,
         "trusted": ["modelled not verified: FxHasher (any function of the key)"],
@@ -293,7 +293,7 @@ PROPS = {
                        "parameters, hence builder results are cache-independent.",
     },
     "C13": {
-        "modules": ["RsddModel.Props.C13", "RsddModel.Props.Tie", "RsddModel.Props.TieFF", "RsddModel.Props.TieSem", "RsddModel.Props.TieOptim"],
+        "modules": ["RsddModel.Props.C13", "RsddModel.Props.Tie", "RsddModel.Props.TieFF", "RsddModel.Props.TieSem", "RsddModel.Props.TieOptim", "RsddModel.Props.TieOptimSource"],
         "streams": [RING_STREAM],
         "rule": "triples (a,b,c) per weight type: finite fields for all 7 exported primes with boundary residues {0,1,2,P/2,P/2+1,P-2,P-1}, "
                 "small and random residues; reals/EU/complex on dyadic k/8 (exact in f64); Booleans exhaustively; truncated polynomials over "
@@ -327,7 +327,7 @@ PROPS = {
         "explanation": "C07Bdd.* theorems; wmc stream compares implementation counts with brute-force sums and the mirrored fold.",
     },
     "C08": {
-        "modules": ["RsddModel.Props.C08", "RsddModel.Props.TieOrders", "RsddModel.Props.TieBddCore"],
+        "modules": ["RsddModel.Props.C08", "RsddModel.Props.TieOrders", "RsddModel.Props.TieBddCore", "RsddModel.Props.TieBddCoreSource"],
         "streams": [WMC_STREAM],
         "rule": "as C07; every diagram is smoothed over all n variables; the smoothed diagram, its paths, weighted and unweighted counts are compared",
         "trusted": ["modelled not verified: get_or_insert as structural normalisation (C02)"],
@@ -371,7 +371,7 @@ PROPS = {
         "explanation": "C14.* theorems; ord stream: implementation vs spec (set-theoretic definitions, root paths) and vs the mirrored model.",
     },
     "C05": {
-        "modules": ["RsddModel.Props.C05Bdd", "RsddModel.Props.C05Sdd", "RsddModel.Props.C03", "RsddModel.Props.TieCompile", "RsddModel.Props.TieBddCore"],
+        "modules": ["RsddModel.Props.C05Bdd", "RsddModel.Props.C05Sdd", "RsddModel.Props.C03", "RsddModel.Props.TieCompile", "RsddModel.Props.TieBddCore", "RsddModel.Props.TieBddCoreSource"],
         "streams": [COMP_STREAM],
         "rule": "CNFs (empty formula, empty/unit clauses, repeated and complementary literals, unused indices), random partial assignments over all "
                 "variables, random expression trees over all seven constructors (depth <= 4), dtree plans for random elimination orders; BDD builder "
@@ -396,7 +396,7 @@ PROPS = {
         "explanation": "C05Bdd.* theorems; comp stream: implementation vs truth table of the input text, vs the mirrored compile functions (exact diagrams).",
     },
     "C06": {
-        "modules": ["RsddModel.Props.C06", "RsddModel.Props.C06Real", "RsddModel.Props.TieDnnf", "RsddModel.Props.TieCnfUp"],
+        "modules": ["RsddModel.Props.C06", "RsddModel.Props.C06Real", "RsddModel.Props.TieDnnf", "RsddModel.Props.TieDnnfSource", "RsddModel.Props.TieCnfUp"],
         "streams": [TD_STREAM],
         "rule": "CNFs as in C05 x a random permutation of the variables as decision order x {standard, semantic(U64_LARGEST)} store; for every "
                 "(variable, value) the result and its negation are conditioned; non-trivial = result has a node below a node",
@@ -434,7 +434,7 @@ PROPS = {
         "explanation": "C10.* and C10Sdd.* theorems; query stream: answers vs fresh copy, scratch emptiness, tree-level values, and the DAG+scratch model.",
     },
     "C12": {
-        "modules": ["RsddModel.Props.C12", "RsddModel.Props.TieSem", "RsddModel.Props.TieOptim"],
+        "modules": ["RsddModel.Props.C12", "RsddModel.Props.TieSem", "RsddModel.Props.TieOptim", "RsddModel.Props.TieOptimSource"],
         "streams": [OPT_STREAM],
         "rule": "the two largest distinct diagrams of a builder pool under a random order; marginal MAP / real branch-and-bound: every subset size 0..4 of "
                 "query variables in random order, weights in eighths, non-query normalised, query weights arbitrary in [0,1]; MEU / EU branch-and-bound: "
@@ -490,7 +490,7 @@ PROPS = {
         "explanation": "C17.* theorems; ser stream: real parsers/serialisers vs specification-level readers of the same text / JSON.",
     },
     "C04": {
-        "modules": ["RsddModel.Props.C04", "RsddModel.Props.TieVTree", "RsddModel.Props.TieTables", "RsddModel.Props.TieSddCore"],
+        "modules": ["RsddModel.Props.C04", "RsddModel.Props.TieVTree", "RsddModel.Props.TieTables", "RsddModel.Props.TieTablesSource", "RsddModel.Props.TieSddCore"],
         "streams": [SDD_STREAM],
         "rule": "as C03; with compression on, every decision node reachable from every result is checked (from its printed canonical form and truth "
                 "tables) for: primes non-false, pairwise exclusive, exhaustive, over the left vtree child's variables; subs over the right child's "
@@ -526,7 +526,7 @@ PROPS = {
         "explanation": "C18.* theorems; ffi stream: C symbols vs native API vs handle-layer model vs specification.",
     },
     "C19": {
-        "modules": ["RsddModel.Props.C19", "RsddModel.Props.TieCompile", "RsddModel.Props.TieBddCore"],
+        "modules": ["RsddModel.Props.C19", "RsddModel.Props.TieCompile", "RsddModel.Props.TieBddCore", "RsddModel.Props.TieBddCoreSource"],
         "streams": [CLI_STREAM],
         "prebuild": CLI_PREBUILD,
         "rule": "the three binaries built from the working tree (feature cli) run on generated files: weighted_model_count on s-expressions over up to 6 "
@@ -564,7 +564,7 @@ PROPS = {
         "explanation": "C09.* theorems; up stream: every observation vs brute-force entailment / fixpoint / flag / hash-vs-residual, pop vs the earlier observation, and exact equality with the mirrored model incl. watch lists.",
     },
     "C11": {
-        "modules": ["RsddModel.Props.C11Bdd", "RsddModel.Props.C11", "RsddModel.Props.C06", "RsddModel.Props.TieDnnf"],
+        "modules": ["RsddModel.Props.C11Bdd", "RsddModel.Props.C11", "RsddModel.Props.C06", "RsddModel.Props.TieDnnf", "RsddModel.Props.TieDnnfSource"],
         "streams": [HASH_STREAM],
         "rule": "one program of builder operations evaluated in five builders (ROBDD under two orders, compressing SDD builder under one vtree, "
                 "uncompressed SDD builder under another, semantic-hash SDD builder) and CNFs compiled bottom-up and top-down under two orders; the "
